@@ -57,7 +57,7 @@ StrEqSane ==
 
 (* Each named deviation is exactly the rule it drops: a witness string that breaks only that rule is
    accepted under that deviation alone and under no combination of the others. *)
-Rep(n, x) == [i \in 1..n |-> x]
+Rep(n, x) == [i \in 1..n |-> x] \o <<>>   \* "\o" makes it a concrete tuple (a lazy function value is re-enumerated by every Len)
 Witness == [no_len_limit      |-> Rep(256, 121),
             no_array_depth    |-> Rep(33, 97) \o <<121>>,
             no_struct_depth   |-> Rep(33, 40) \o <<121>> \o Rep(33, 41),
